@@ -16,6 +16,8 @@ and reports an operation whose operands are dimensionally incompatible:
           multiplied by its per-sample delta, or used to index a per-fragment array
   width   a sum or product of byte or tick quantities is formed in a type narrower than 64 bits
   sign    a quantity ISO declares signed (trun data offset, composition offset) is cast from a signed to an unsigned type
+  bound   half-open interval discipline: a zero-based position is compared with a count, or a number with the first number
+          of a run, using the inclusive operator (`position <= count`, `number <= first_of_next_run`)
 
 Unknown constructs evaluate to "unknown" and unknown never conflicts with anything: a construct the evaluator does not
 understand silences the rule for the values that flow through it, it never raises an alarm.  Literals are polymorphic
@@ -24,16 +26,32 @@ understand silences the rule for the values that flow through it, it never raise
 import hirq
 from facts import short
 
-LIT = "LIT"
+class _Lit:
+    """an integer literal (polymorphic in dimension); `val` is its value when known"""
+    __slots__ = ("val",)
+
+    def __init__(self, val=None):
+        self.val = val
+
+    def __repr__(self):
+        return "lit"
+
+
+LIT = _Lit(None)
+
+
+def islit(x):
+    return isinstance(x, _Lit)
 
 
 class D:
     """concrete dimension. kind: 'P' point, 'V' vector, 'PL' point-minus-literal (previous point or file-relative index).
     u: unit as sorted tuple of (base, exponent). scope: 'file' | 'local' | None."""
-    __slots__ = ("kind", "u", "scope", "signed")
+    __slots__ = ("kind", "u", "scope", "signed", "role")
 
-    def __init__(self, kind, u, scope=None, signed=False):
+    def __init__(self, kind, u, scope=None, signed=False, role=None):
         self.signed = signed      # the quantity may be negative (ISO declares the field signed)
+        self.role = role          # 'count' (how many), 'index' (zero-based position), 'origin' (number of the first element of a run)
         self.kind = kind
         self.u = tuple(sorted((b, e) for b, e in (u.items() if isinstance(u, dict) else u) if e))
         self.scope = scope
@@ -86,7 +104,7 @@ def ustr(u):
 def show(v):
     if v is None:
         return "?"
-    if v is LIT:
+    if islit(v):
         return "lit"
     if isinstance(v, D):
         k = {"P": "point", "V": "", "PL": "abs-or-rel"}[v.kind]
@@ -147,23 +165,23 @@ def V(scope=None, **u):
 # S samples, C chunks, B bytes, Tm media ticks, Tv movie ticks, sec seconds, E:<x> position in table x.
 def _fields():
     F = {}
-    F[("StscEntry", "first_chunk")] = P("C", "local")
+    F[("StscEntry", "first_chunk")] = D("P", {"C": 1}, "local", role="origin")
     F[("StscEntry", "samples_per_chunk")] = V("local", S=1, C=-1)
-    F[("StscEntry", "first_sample")] = P("S", "local")
+    F[("StscEntry", "first_sample")] = D("P", {"S": 1}, "local", role="origin")
     F[("StscBox", "entries")] = Coll("StscEntry", "E:stsc", None, "stsc.entries")
     F[("StszBox", "sample_size")] = V(None, B=1, S=-1)
-    F[("StszBox", "sample_count")] = V(None, S=1)
+    F[("StszBox", "sample_count")] = D("V", {"S": 1}, None, role="count")
     F[("StszBox", "sample_sizes")] = Coll(V(None, B=1), "S", "file", "stsz.sample_sizes")
     F[("StcoBox", "entries")] = Coll(P("B", "local"), "C", "file", "stco.entries")
     F[("Co64Box", "entries")] = Coll(P("B", "local"), "C", "file", "co64.entries")
     F[("SttsBox", "entries")] = Coll("SttsEntry", "E:stts", None, "stts.entries")
-    F[("SttsEntry", "sample_count")] = V(None, S=1)
+    F[("SttsEntry", "sample_count")] = D("V", {"S": 1}, None, role="count")
     F[("SttsEntry", "sample_delta")] = V("local", Tm=1, S=-1)
     F[("CttsBox", "entries")] = Coll("CttsEntry", "E:ctts", None, "ctts.entries")
-    F[("CttsEntry", "sample_count")] = V(None, S=1)
+    F[("CttsEntry", "sample_count")] = D("V", {"S": 1}, None, role="count")
     F[("CttsEntry", "sample_offset")] = D("V", {"Tm": 1}, None, signed=True)
     F[("StssBox", "entries")] = Coll(P("S"), "E:stss", None, "stss.entries")
-    F[("TrunBox", "sample_count")] = V(None, S=1)
+    F[("TrunBox", "sample_count")] = D("V", {"S": 1}, None, role="count")
     F[("TrunBox", "data_offset")] = D("V", {"B": 1}, None, signed=True)
     F[("TrunBox", "sample_sizes")] = Coll(V(None, B=1), "S", "local", "trun.sample_sizes")
     F[("TrunBox", "sample_durations")] = Coll(V(None, Tm=1), "S", "local", "trun.sample_durations")
@@ -303,9 +321,9 @@ class Units:
 
     def merge(self, a, b, n=None, what="merge"):
         """value of a variable / expression that may be either a or b"""
-        if a is None or a is LIT:
+        if a is None or islit(a):
             return b if b is not None else a
-        if b is None or b is LIT:
+        if b is None or islit(b):
             return a
         if isinstance(a, D) and isinstance(b, D):
             u = ucompat(a.u, b.u)
@@ -322,7 +340,7 @@ class Units:
             scope = a.scope if a.scope == b.scope else None      # different scopes on different paths: undecided
             if n is not None:
                 self.ok(what, n)
-            return D(kind, u, scope, signed=a.signed or b.signed)
+            return D(kind, u, scope, signed=a.signed or b.signed, role=a.role if a.role == b.role else None)
         if isinstance(a, Tup) and isinstance(b, Tup) and len(a.es) == len(b.es):
             return Tup([self.merge(x, y, n, what) for x, y in zip(a.es, b.es)])
         return a
@@ -341,10 +359,10 @@ class Units:
         if op in ("BitAnd", "BitOr", "BitXor", "Shl", "Shr"):
             return None
         if a is None or b is None:
-            if op in ("Add", "Sub") and (a is LIT or b is LIT):
+            if op in ("Add", "Sub") and (islit(a) or islit(b)):
                 return None
             return None
-        if not (a is LIT or isinstance(a, D)) or not (b is LIT or isinstance(b, D)):
+        if not (islit(a) or isinstance(a, D)) or not (islit(b) or isinstance(b, D)):
             return None
         sig = "%s %s %s" % (show(a), op, show(b))
         if op in CMP:
@@ -352,15 +370,21 @@ class Units:
                 if ucompat(a.u, b.u) is None:
                     self.err("unit", sig, "a %s is compared with a %s" % (show(a), show(b)), n)
                 else:
+                    self.bound(op, a, b, n)
                     self.ok("cmp", n)
             return None
-        if a is LIT and b is LIT:
+        if islit(a) and islit(b):
             return LIT
         if op == "Add":
-            if a is LIT or b is LIT:
-                x = b if a is LIT else a
+            if islit(a) or islit(b):
+                x, lit = (b, a) if islit(a) else (a, b)
                 if x.kind == "V":
-                    return D("PL", x.u, None)        # count + 1: the next absolute number or a larger count
+                    # 1 + count: the number of the first element after a run of `count` (numbering starts at 1);
+                    # 0 + count: still a count
+                    role = None
+                    if x.role == "count":
+                        role = "origin" if lit.val == 1 else ("count" if lit.val == 0 else None)
+                    return D("PL", x.u, None, role=role)
                 return x
             u = ucompat(a.u, b.u)
             if u is None:
@@ -380,17 +404,20 @@ class Units:
                 self.ok("add", n)
                 return D("P", u, p.scope)
             sc = "file" if "file" in (a.scope, b.scope) and "local" not in (a.scope, b.scope) else None
-            r = D("PL" if "PL" in (a.kind, b.kind) else "V", u, sc)
+            roles = {a.role, b.role}
+            # (first number of a run) + (count of the run) = first number of the next run; count + count = count
+            role = "origin" if "origin" in roles and roles <= {"origin", "count"} else ("count" if roles == {"count"} else None)
+            r = D("PL" if "PL" in (a.kind, b.kind) else "V", u, sc, role=role)
             self.width(op, r, a, b, n)
             self.ok("add", n)
             return r
         if op == "Sub":
-            if a is LIT:
+            if islit(a):
                 return None
-            if b is LIT:
+            if islit(b):
                 if a.kind == "P":
-                    return D("PL", a.u, "file")
-                return D(a.kind, a.u, a.scope)
+                    return D("PL", a.u, "file", role="index")
+                return D(a.kind, a.u, a.scope, role=a.role if a.role == "index" else None)
             u = ucompat(a.u, b.u)
             if u is None:
                 self.err("unit", sig, "a %s is subtracted from a %s" % (show(b), show(a)), n)
@@ -400,23 +427,24 @@ class Units:
                 return None
             self.ok("sub", n)
             if a.kind == "P" and b.kind == "P":
-                return D("V", u, "local")
+                return D("V", u, "local", role="index")
             if a.kind == "P" and b.kind == "V":
                 return D("P", u, None)
             if a.kind == "PL" and b.kind == "P":
-                return D("V", u, None)
+                return D("V", u, None, role="index")
             if a.kind == "V":
-                return D("V", u, None)
-            return D("PL", u, None)
+                return D("V", u, None, role="index" if a.role == "index" and b.role == "count" else None)
+            # (number - 1) - count of earlier runs: still a zero-based position; number - origin-like: a position in the run
+            return D("PL", u, None, role="index" if (a.role == "index" and b.role in ("count", None)) or (a.kind == "P" and b.role == "origin") else None)
         if op in ("Mul", "Div", "Rem"):
             for x, other in ((a, b), (b, a)):
                 if isinstance(x, D) and x.kind == "P":
                     self.err("point", sig, "an absolute quantity (%s) is %s" % (show(x), {"Mul": "multiplied", "Div": "part of a division", "Rem": "part of a remainder"}[op]), n)
                     return None
             a2, b2 = self.as_vec(a), self.as_vec(b)
-            if a2 is LIT:
+            if islit(a2):
                 return b2 if op == "Mul" else None
-            if b2 is LIT:
+            if islit(b2):
                 return D("V", a2.u, a2.scope)
             if {a2.scope, b2.scope} == {"file", "local"}:
                 self.err("scope", sig, "a file-relative index (%s) is combined with a quantity of one run / fragment (%s)" % (show(a2 if a2.scope == "file" else b2), show(b2 if a2.scope == "file" else a2)), n)
@@ -440,8 +468,26 @@ class Units:
             return D("V", a2.u, "local" if b2.scope == "local" else a2.scope)
         return None
 
+    def bound(self, op, a, b, n):
+        """half-open interval discipline at run boundaries: a zero-based position lies in a run of `count` elements iff
+        position < count; a number lies before the run that starts at `origin` iff number < origin.  The inclusive forms
+        (position <= count, number <= origin and their mirrors) put the boundary element into the wrong run."""
+        if op in ("Eq", "Ne"):
+            return
+        flip = {"Lt": "Gt", "Gt": "Lt", "Le": "Ge", "Ge": "Le"}
+        for x, y, o in ((a, b, op), (b, a, flip[op])):
+            # x is the moving quantity, y the boundary
+            if x.role == "index" and y.role == "count" and o in ("Le", "Gt"):
+                self.err("bound", "%s %s %s" % (show(x), o, show(y)), "a zero-based position is compared with a count using %s: position == count is one past the last element (use < / >=)" % {"Le": "<=", "Gt": ">"}[o], n)
+                return
+            if x.kind == "P" and x.role is None and y.role == "origin" and o in ("Le", "Gt"):
+                self.err("bound", "%s %s %s" % (show(x), o, show(y)), "a sample / chunk number is compared with the first number of a run using %s: the run that starts at that number already contains it (use < / >=)" % {"Le": "<=", "Gt": ">"}[o], n)
+                return
+        if {a.role, b.role} & {"index", "origin"} and {a.role, b.role} & {"count", "origin"}:
+            self.ok("bound", n)
+
     def width(self, op, r, a, b, n):
-        if not self.widths or a is LIT or b is LIT:
+        if not self.widths or islit(a) or islit(b):
             return
         ty = n.get("ty") or n.get("_ty")
         if ty in NARROW and strip_rate(r.u) in ((("B", 1),), (("Tm", 1),), (("Tv", 1),)):
@@ -459,7 +505,7 @@ class Units:
             for g, w in zip(got.es, want.es):
                 self.check_against(g, w, what, n)
             return
-        if got is None or got is LIT or want is None or not isinstance(got, D) or not isinstance(want, D):
+        if got is None or islit(got) or want is None or not isinstance(got, D) or not isinstance(want, D):
             return
         sig = "%s: %s <- %s" % (what, show(D(want.kind, want.u)), show(got))
         if ucompat(got.u, want.u) is None:
@@ -474,7 +520,7 @@ class Units:
         self.ok("store:" + what, n)
 
     def check_index(self, coll, idx, n):
-        if not isinstance(coll, Coll) or idx is None or idx is LIT or not isinstance(idx, D):
+        if not isinstance(coll, Coll) or idx is None or islit(idx) or not isinstance(idx, D):
             return
         want_u = ((coll.ibase, 1),)
         sig = "%s[%s]" % (coll.name, show(idx))
@@ -558,7 +604,10 @@ class Units:
         return m(n, env)
 
     def ev_lit(self, n, env):
-        return LIT if n.get("lk") == "int" else None
+        if n.get("lk") != "int":
+            return None
+        v = n.get("val")
+        return _Lit(v) if isinstance(v, int) else LIT
 
     def ev_path(self, n, env):
         if n.get("res") == "local":
@@ -894,7 +943,7 @@ class Units:
     def sig_of(self, v):
         if isinstance(v, D):
             return (v.kind, v.u, v.scope)
-        if v is LIT:
+        if islit(v):
             return "L"
         if isinstance(v, Tup):
             return tuple(self.sig_of(e) for e in v.es)
@@ -913,7 +962,7 @@ class Units:
             for i, want in entry_params(fn, name).items():
                 if i < len(vals):
                     self.check_against(vals[i], want, "argument %d of %s" % (i, name), n)
-                    if vals[i] is None or vals[i] is LIT:
+                    if vals[i] is None or islit(vals[i]):
                         vals[i] = want
         key = (fid, tuple(self.sig_of(v) for v in vals), self.region, self.record)
         if key in self.memo:
@@ -993,7 +1042,7 @@ def run_rule(fx, chk, rule, entries, regions=(None,), exclude=(), widths=True, f
             continue
         fn = by_name.get(e["fn"])
         bad_keys.add((e["fn"], e["region"]))
-        chk.bad(rule, "%s|%s|%s" % (e["fn"], e["kind"], e["sig"]), "%s: %s" % ({"unit": "incompatible quantities", "point": "absolute quantity misused", "scope": "file-relative quantity used run-locally", "width": "narrow arithmetic", "sign": "signed quantity reinterpreted"}[e["kind"]], e["detail"]),
+        chk.bad(rule, "%s|%s|%s" % (e["fn"], e["kind"], e["sig"]), "%s: %s" % ({"unit": "incompatible quantities", "point": "absolute quantity misused", "scope": "file-relative quantity used run-locally", "width": "narrow arithmetic", "sign": "signed quantity reinterpreted", "bound": "inclusive comparison at a run boundary"}[e["kind"]], e["detail"]),
                 site_of(fn, e["line"]) if fn else "")
     for (fnm, region), cnt in sorted(U.checked.items(), key=str):
         if region not in regions or (fnm, region) in exclude or (only and not only(fnm)):
